@@ -126,23 +126,51 @@ package reconciler
 //@ ghostcomp GH_heapOps int
 //@ func (*retryPrioQueue).Fix
 //@   trusted
+//@   flag checkbody=yes
+//@   flag nosafety
+//@   atcall Fix@1 requires @this-heap-this-slot unboxptr($0) == hq && $1 == index
+//@   mustcall Fix@1 when @always true
 //@   modifies GH_heapOps H_reconciler_retryPrioQueue_* H_reconciler_retryItem_index H_reconciler_retryItem_revIndex E_p_reconciler_retryItem
 //@   ensures GH_heapOps[hq] == old(GH_heapOps)[hq] + 1 && unchangedExcept(GH_heapOps, hq)
 //@ func (*retryPrioQueue).PushItem
 //@   trusted
+//@   flag checkbody=yes
+//@   flag nosafety
+//@   atcall Push@1 requires @this-heap-this-item unboxptr($0) == hq && unboxptr($1) == item
+//@   mustcall Push@1 when @always true
 //@   modifies GH_heapOps H_reconciler_retryPrioQueue_* H_reconciler_retryItem_index H_reconciler_retryItem_revIndex E_p_reconciler_retryItem
 //@   ensures GH_heapOps[hq] == old(GH_heapOps)[hq] + 1 && unchangedExcept(GH_heapOps, hq)
 //@ func (*retryPrioQueue).PopItem
 //@   trusted
+//@   flag checkbody=yes
+//@   flag nosafety
+//@   atcall Pop@1 requires @this-heap unboxptr($0) == hq
+//@   mustcall Pop@1 when @always true
 //@   modifies GH_heapOps H_reconciler_retryPrioQueue_* H_reconciler_retryItem_index H_reconciler_retryItem_revIndex E_p_reconciler_retryItem
 //@ func (*retryPrioQueue).Remove
 //@   trusted
+//@   flag checkbody=yes
+//@   flag nosafety
+//@   atcall Remove@1 requires @this-heap-this-slot unboxptr($0) == hq && $1 == index
+//@   mustcall Remove@1 when @always true
 //@   modifies GH_heapOps H_reconciler_retryPrioQueue_* H_reconciler_retryItem_index H_reconciler_retryItem_revIndex E_p_reconciler_retryItem
 //@ func (*retries).Pop
 //@   trusted
+//@   flag checkbody=yes
+//@   flag nosafety
+//@   atcall (*retryPrioQueue).PopItem@1 requires @pops-the-time-heap $0 == rq.queue
+//@   mustcall (*retryPrioQueue).PopItem@1 when @always true
+//@   mustcall (*retries).resetTimer@1 when @timer-follows-the-new-top true
 //@   modifies GH_heapOps H_reconciler_retryPrioQueue_* H_reconciler_retryItem_index H_reconciler_retryItem_revIndex E_p_reconciler_retryItem H_reconciler_retries_waitTimer H_reconciler_retries_waitChan CH_closed
 //@ func (*retries).Clear
 //@   trusted
+//@   flag checkbody=yes
+//@   flag nosafety
+//@   flag dyncall.objectToKey=pure
+//@   atcall (*retryPrioQueue).Remove@1 requires @removes-the-items-own-slot-of-the-time-heap $0 == rq.queue && $1 == item.index && 0 <= item.index && item.index < len(rq.queue.items)
+//@   atcall (*retryPrioQueue).Remove@2 requires @removes-the-items-own-slot-of-the-revision-heap $0 == rq.revQueue && $1 == item.revIndex && 0 <= item.revIndex && item.revIndex < len(rq.revQueue.items)
+//@   atcall (*retries).resetTimer@1 requires @timer-reset-only-when-the-top-was-removed index == 0
+//@   mustcall delete@1 when @a-queued-object-is-forgotten ok
 //@   modifies GH_heapOps H_reconciler_retryPrioQueue_* H_reconciler_retryItem_index H_reconciler_retryItem_revIndex E_p_reconciler_retryItem H_reconciler_retries_waitTimer H_reconciler_retries_waitChan CH_closed MD_* MV_* MN_*
 //@ func (*retries).resetTimer
 //@   trusted
